@@ -90,6 +90,11 @@ def worker(case):
             stats["cls_" + c["cls"]] = stats.get("cls_" + c["cls"], 0) + 1
             nontriv.add(core.h8([c["cls"], c["file_name"], c["ops"]]))
             for k, (g, e) in enumerate(zip(got, c["expect"])):
+                if isinstance(e, list):
+                    # conditional expectation ["if", k, v]: binds only when op k returned 1 (a setter that accepted the value)
+                    if got[e[1]] != 1:
+                        continue
+                    e = e[2]
                 if e is None:
                     continue
                 if bool(g == 1) != bool(e):
@@ -112,7 +117,7 @@ class C07(core.Check):
     prop = "C07"
     flavours = ["asan"]
     rule = ("per sample file (all 4 lead checksum types): digest string with EVERY position x all 256 byte values (exhaustive), upper/lower/mixed case, "
-            "wrong digests whose differences cancel under folding (swapped words, paired bit flips, sum-preserving, reversed), wrong lengths, a wrong pin followed by a refused setter call and zck_clear_error (the pin must stay in force), pinned-vs-actual type grid, length pins (exact, +-1, 0, 2^63-1, negative), both setter orders, pins set or changed between zck_validate_lead and the open, validate_lead followed by "
+            "wrong digests whose differences cancel under folding (swapped words, paired bit flips, sum-preserving, reversed), wrong lengths, a wrong pin followed by a refused setter call and zck_clear_error (the pin must stay in force), pinned-vs-actual type grid, type pins beyond the int range (2^32+t, 2^32-1, 2^31, 2^63-1), leads whose declared header size wraps lead+size around 2^64, length pins (exact, +-1, 0, 2^63-1, negative), both setter orders, pins set or changed between zck_validate_lead and the open, validate_lead followed by "
             "read_lead/read_header on the same context, pins taken from F0 presented with F1 (other file, re-sealed mutated header, mutated header with old "
             "checksum); the image presented through a pipe / FIFO / socket pair / behind another image in the same descriptor. distinct = (class, file, op sequence)")
     assumptions = ["expected verdicts from Python hex/bytes semantics and the reference parse of each image"]
@@ -142,7 +147,19 @@ class C07(core.Check):
             rs = zckref.reseal(bytes(m))
             if rs:
                 derived.append((name + "-mut-resealed", rs, name))
-        allfiles = files + [(n, d) for n, d, _ in derived]
+        # leads whose declared header size is so large that (lead length + header size) wraps around 2^64 to a small number
+        wrapped = []
+        for name, d in list(files)[:4 if self.quick else 12]:
+            p = zckref.parse(d)
+            for W in (10, p.lead_len + 1, 4096):
+                ds_ = DS[p.hash_type]
+                # lead = 5 + 1 (type) + 10 (size as a ten-byte integer) + digest
+                ll = 5 + 1 + 10 + ds_
+                hs = (1 << 64) - ll + W
+                img = d[:5] + zckref.ci_encode(p.hash_type) + zckref.ci_encode(hs) + d[p.lead_len - ds_:]
+                if len(zckref.ci_encode(hs)) == 10 and len(zckref.ci_encode(p.hash_type)) == 1:
+                    wrapped.append(("%s-wrap%d" % (name, W), img, W, ll))
+        allfiles = files + [(n, d) for n, d, _ in derived] + [(n, d) for n, d, _, _ in wrapped]
         fidx = {n: i for i, (n, _) in enumerate(allfiles)}
         info = {n: lead_info(d) for n, d in allfiles}
         cases = []
@@ -214,6 +231,13 @@ class C07(core.Check):
                 elif DS[pt] * 2 != n:
                     add("type-digest-size", name, ["T%d" % pt, "D" + hx.hex()], [1, 0], "digest of type %d under pinned type %d" % (t, pt))
             add("type-negative", name, ["T-1", "l"], [0, None])
+            # type pins that only equal the file's type modulo 2^32 / whose low word is negative as an int: whatever the setter says, such a
+            # pin is not the file's type and the lead must not be accepted under it
+            for pt in ((1 << 32) + t, (1 << 32) - 1, (1 << 31), (1 << 33) + t, (1 << 63) - 1, (1 << 32) * 255 + t):
+                # (a setter that refuses the value has pinned nothing: the expectation binds only if it accepted)
+                add("type-beyond-int", name, ["T%d" % pt, "l"], [None, ["if", 0, 0]], "pinned %d actual %d" % (pt, t))
+                add("type-beyond-int", name, ["T%d" % pt, "c", "v"], [None, None, ["if", 0, 0]], "pinned %d actual %d" % (pt, t))
+                add("type-beyond-int", name, ["T%d" % pt, "c", "o"], [None, None, ["if", 0, 0]], "pinned %d actual %d" % (pt, t))
             # length pins
             for L_, e in ((total, 1), (total - 1, 0), (total + 1, 0), (0, 0), (1, 0), (2 ** 63 - 1, 0), (total + 256, 0), (total ^ 0x100, 0)):
                 add("length-pin", name, ["L%d" % L_, "v", "l", "h"], [1, e, e, (1 if ok else 0) if e else None], "pinned %d actual %d" % (L_, total))
@@ -253,6 +277,11 @@ class C07(core.Check):
                 add("descriptor-kind", name, [F, T, "D" + hx.hex(), "L%d" % (total + 1), "l"], [1, 1, 1, 0], F + " wrong length")
                 add("descriptor-kind", name, [F, "o"], [1 if ok else 0], F + " plain open")
                 # (zck_validate_lead rewinds the descriptor afterwards, so it needs a seekable one: not asked of pipes)
+        for wn, wimg, W, ll in wrapped:
+            # the file's total header length is lead + 2^64-ish: no representable pin equals it
+            for L_ in (W, W + 1, ll, 0):
+                add("length-wraps", wn, ["L%d" % L_, "v"], [1, 0], "lead %d bytes, declared header size 2^64-%d+%d" % (ll, ll, W))
+                add("length-wraps", wn, ["L%d" % L_, "l"], [1, 0], "lead %d bytes, declared header size 2^64-%d+%d" % (ll, ll, W))
         # cross-file: pins from F0, image F1
         for n1, d1, n0 in derived:
             t0, dg0, total0, ok0 = info[n0]
